@@ -21,4 +21,10 @@ iface (s Span) InjectHTTP(r *http.Request)
   trusted
   requires r != nil
   modifies allof("map<string,[]string>#dom"), allof("map<string,[]string>#card"), allof("map<string,[]string>#val#arr"), allof("map<string,[]string>#val#len"), allof("map<string,[]string>#val#cap"), allof("elem<string>")
+
+func (t *Tracer) NewSpanWithStart(name string, startAt time.Time) (s Span)
+  trusted
+  flag allocates
+  pure
+  ensures s != nil
 @*/
